@@ -895,6 +895,10 @@ def leaves_full(seed):
          ["trange", "f", "b", "b", False, False, 1.0], ["trange", "f", "b", "b", True, False, 1.0],
          ["trange", "f", "c", "a", False, False, 1.0], ["trange", "g", "a", "b", False, False, 1.0],
          ["trange", "f", "a", "b", False, False, 2.0],
+         # touching ranges that both exclude the shared boundary (merging them
+         # would add the boundary term), and the half-open counterpart
+         ["trange", "f", "b", "c", True, False, 1.0], ["trange", "f", "b", None, True, False, 1.0],
+         ["trange", "f", None, "b", False, True, 1.0],
          ["phrase", "f", [], 1, 1.0], ["phrase", "f", [x], 1, 1.0], ["phrase", "f", [x, y], 1, 1.0],
          ["phrase", "f", [y, x], 1, 1.0], ["phrase", "f", [x, y], 2, 1.0], ["phrase", "f", [x, x], 1, 2.0]]
     return L
